@@ -145,7 +145,10 @@ func (p *PacketConn) Sent() []SentDatagram {
 
 // Inject queues a datagram for ReadFrom.
 func (p *PacketConn) Inject(payload []byte, addr net.Addr) {
-	p.in <- Datagram{Payload: append([]byte(nil), payload...), Addr: addr}
+	select {
+	case p.in <- Datagram{Payload: append([]byte(nil), payload...), Addr: addr}:
+	case <-p.done: // closed: nobody will read it any more
+	}
 }
 
 // Backlog is the number of injected datagrams not yet read by the server loop.
